@@ -492,12 +492,42 @@ pub fn gen_script(rng: &mut Rng, spec: &WorldSpec, built: &BuiltWorld, cfg: &str
                             let m = sl.list.get(idx);
                             let wi = m.get_word_info();
                             let raw = |v: &[sudachi::dic::word_id::WordId]| v.iter().map(|w| w.as_raw()).collect::<Vec<u32>>();
-                            ops.push(json!({"op":"word_info","list":src,"of_fill":sl.fill,"idx":idx,"expect":{
-                                "surface": wi.surface(), "head_word_length": wi.head_word_length(), "pos_id": wi.pos_id(),
-                                "normalized_form": wi.normalized_form(), "dictionary_form_word_id": wi.dictionary_form_word_id(),
-                                "dictionary_form": wi.dictionary_form(), "reading_form": wi.reading_form(),
-                                "a_unit_split": raw(wi.a_unit_split()), "b_unit_split": raw(wi.b_unit_split()),
-                                "word_structure": raw(wi.word_structure()), "synonym_group_ids": wi.synonym_group_ids()}}));
+                            // only attributes of *requested* fields are promised (the Python list may have more loaded)
+                            let sub = sl.list.subset();
+                            let has = |f: InfoSubset| sub.contains(f);
+                            let mut e = serde_json::Map::new();
+                            if has(InfoSubset::SURFACE) {
+                                e.insert("surface".into(), json!(wi.surface()));
+                            }
+                            if has(InfoSubset::HEAD_WORD_LENGTH) {
+                                e.insert("head_word_length".into(), json!(wi.head_word_length()));
+                            }
+                            if has(InfoSubset::POS_ID) {
+                                e.insert("pos_id".into(), json!(wi.pos_id()));
+                            }
+                            if has(InfoSubset::NORMALIZED_FORM | InfoSubset::SURFACE) {
+                                e.insert("normalized_form".into(), json!(wi.normalized_form()));
+                            }
+                            if has(InfoSubset::DIC_FORM_WORD_ID | InfoSubset::SURFACE) {
+                                e.insert("dictionary_form_word_id".into(), json!(wi.dictionary_form_word_id()));
+                                e.insert("dictionary_form".into(), json!(wi.dictionary_form()));
+                            }
+                            if has(InfoSubset::READING_FORM | InfoSubset::SURFACE) {
+                                e.insert("reading_form".into(), json!(wi.reading_form()));
+                            }
+                            if has(InfoSubset::SPLIT_A) {
+                                e.insert("a_unit_split".into(), json!(raw(wi.a_unit_split())));
+                            }
+                            if has(InfoSubset::SPLIT_B) {
+                                e.insert("b_unit_split".into(), json!(raw(wi.b_unit_split())));
+                            }
+                            if has(InfoSubset::WORD_STRUCTURE) {
+                                e.insert("word_structure".into(), json!(raw(wi.word_structure())));
+                            }
+                            if has(InfoSubset::SYNONYM_GROUP_ID) {
+                                e.insert("synonym_group_ids".into(), json!(wi.synonym_group_ids()));
+                            }
+                            ops.push(json!({"op":"word_info","list":src,"of_fill":sl.fill,"idx":idx,"expect":Value::Object(e)}));
                         }
                     }
                 }
